@@ -24,6 +24,7 @@ def run(facts, tier):
         ("emptiness predicate support", lambda fa: predicates.obligations(fa, None), 30, "the emptiness predicate still consults every field it depended on in the reviewed tree (spec/predicates.json)"),
         ("tautologies", lambda fa: generic_lints.tautologies(fa, None), 2, "no comparison / assignment / min-max with two identical operands, no if-else with identical arms"),
         ("duplicate operands", lambda fa: generic_lints.duplicate_conjuncts(fa, None), 2, "no logical chain tests the same operand twice (copy-paste of the wrong peer)"),
+        ("moves from lvalue operands", lambda fa: generic_lints.moves_from_lvalue_operands(fa, None), 1, "in the lvalue instantiation of a forwarding-reference operand nothing is std::move-d out of the operand (conditional_forward copies there): a sketch passed to be read keeps its items / summaries"),
         ("narrow shifts", lambda fa: generic_lints.narrow_variable_shift(fa, None), 1, "no count << level evaluated in 32 bits and only then widened to 64 bits (weights of large merged sketches wrap at 2^32)"),
         ("stale aliases", lambda fa: generic_lints.stale_aliases(fa, None), 1, "no use of a local pointer alias after its origin was re-assigned and the replaced object released (use after free; the replacement never receives the operation)"),
         ("forwarding peers", lambda fa: generic_lints.forwarding_peers(fa, None), 60, "one-statement typed overloads forward to an overload of their own name, never to the head of a sibling family (wrong peer)"),
